@@ -8,11 +8,13 @@
     specification of the inside pass.  Stage 3 (proved, linear space over the reals, every
     single tree given as an inductive [tree], every grid size, priors and likelihoods >= 0
     with zeros allowed): the returned marginal likelihood equals the brute-force normalising
-    constant and the posterior of the ROOT equals the brute-force marginal.
+    constant, and the normalised inside x outside of EVERY internal node equals its
+    brute-force marginal posterior (outside standardisation on or off, g_i recomputed).
     See the end of the file for what is NOT proved. *)
 From Coq Require Import List QArith Reals Arith Permutation.
 From TsdateV Require Import lib.Num model.Discrete proofs.DiscreteBase proofs.DiscretePack
-  proofs.DiscreteInside proofs.DiscreteLog proofs.DiscreteTree proofs.DiscreteBrute proofs.DiscreteEx.
+  proofs.DiscreteInside proofs.DiscreteLog proofs.DiscreteTree proofs.DiscreteBrute proofs.DiscretePost
+  proofs.DiscreteEx.
 Import ListNotations.
 
 (** rowsum_lower_tri (A (.) B) [i] = (+)_{j <= i} A(i,j) (.) B(i,j) for the flattened
@@ -106,10 +108,17 @@ Theorem C10_marginal_likelihood : forall (G : nat) lik sfrac fixed priorv es roo
 Proof. exact marginal_likelihood_exact. Qed.
 Print Assumptions C10_marginal_likelihood.
 
-(** the normalised inside * outside of the root is its exact marginal posterior
-    (with or without outside standardisation, cached or recomputed g_i) *)
-Theorem C10_root_posterior_exact_partial :
-  forall (G : nat) lik sfrac fixed priorv es es_out nonfixed cache std num_nodes root e cs st m out,
+(** C10_posterior_exact: for EVERY internal node v of the tree, the vector inside(v) * outside(v)
+    computed by the two passes is, after normalisation, the exact marginal posterior of the
+    discretised model: the total weight of the assignments that put v at index i (the weight sum
+    with v's prior zeroed everywhere but at i, [restrict priorv v i]) over the total weight of all
+    assignments.  [out_ok]: every non-root internal node has exactly one parent edge, which is its
+    group in the outside order; [NoDup (inodes t)]: node ids are distinct.  The hypothesis
+    [sumR vec <> 0] only excludes an all-zero posterior row (the code would then return NaN).
+    Zeros in priors and likelihoods are allowed: where a child-to-parent message is 0 the code's
+    0/0 := 0 (div_0_null) changes the outside value only at indices whose inside value is 0. *)
+Theorem C10_posterior_exact :
+  forall (G : nat) lik sfrac fixed priorv es es_out nonfixed std num_nodes root e cs st m out v,
   (forall e i j, 0 <= lik e i j) -> (forall u x, In x (priorv u) -> 0 <= x) -> (forall e, sfrac e = 1) ->
   let gs := groupby e_parent es in
   let gso := groupby e_child es_out in
@@ -117,15 +126,35 @@ Theorem C10_root_posterior_exact_partial :
   inside_order fixed [] gs ->
   inside_pass LinR G lik sfrac fixed priorv true es [(root, 1)] = Some (st, m) ->
   tree_ok G fixed priorv gs t -> all_pos G lik priorv t ->
-  Permutation (inodes t) (filter (fun p => negb (fixed p)) (map fst gs)) ->
   outside_order (map fst gso) [] gso -> ~ In root (map fst gso) -> In root nonfixed ->
-  outside_pass LinR G lik sfrac fixed st cache std false num_nodes 0 es_out [(root, 1)] nonfixed = Some out ->
-  exists v, posterior_grid LinR st out root = Some v /\ length v = G /\
+  outside_pass LinR G lik sfrac fixed st false std false num_nodes 0 es_out [(root, 1)] nonfixed = Some out ->
+  out_ok gso t -> NoDup (inodes t) -> In v (inodes t) ->
+  exists vec, posterior_grid LinR st out v = Some vec /\ length vec = G /\
+    (sumR vec <> 0 ->
+     forall i, (i < G)%nat ->
+       nth i vec 0 / sumR vec
+       = sumR (map (wt lik (restrict priorv v i) t) (labelings G t)) / sumR (map (wt lik priorv t) (labelings G t))).
+Proof. exact posterior_exact_marginal. Qed.
+Print Assumptions C10_posterior_exact.
+
+(** the same before normalisation: one constant per node *)
+Theorem C10_posterior_proportional :
+  forall (G : nat) lik sfrac fixed priorv es es_out nonfixed std num_nodes root e cs st m out v,
+  (forall e i j, 0 <= lik e i j) -> (forall u x, In x (priorv u) -> 0 <= x) -> (forall e, sfrac e = 1) ->
+  let gs := groupby e_parent es in
+  let gso := groupby e_child es_out in
+  let t := Node e root cs in
+  inside_order fixed [] gs ->
+  inside_pass LinR G lik sfrac fixed priorv true es [(root, 1)] = Some (st, m) ->
+  tree_ok G fixed priorv gs t -> all_pos G lik priorv t ->
+  outside_order (map fst gso) [] gso -> ~ In root (map fst gso) -> In root nonfixed ->
+  outside_pass LinR G lik sfrac fixed st false std false num_nodes 0 es_out [(root, 1)] nonfixed = Some out ->
+  out_ok gso t -> NoDup (inodes t) -> In v (inodes t) ->
+  exists vec kappa, posterior_grid LinR st out v = Some vec /\ length vec = G /\
     forall i, (i < G)%nat ->
-      nth i v 0 / sumR v
-      = sumR (map (wt lik priorv t) (labelings_at G t i)) / sumR (map (wt lik priorv t) (labelings G t)).
-Proof. exact root_posterior_exact. Qed.
-Print Assumptions C10_root_posterior_exact_partial.
+      nth i vec 0 = kappa * sumR (map (wt lik (restrict priorv v i) t) (labelings G t)).
+Proof. exact posterior_exact. Qed.
+Print Assumptions C10_posterior_proportional.
 Close Scope R_scope.
 
 (** worked example with exact rationals (3 leaves, 2 internal nodes, 3 timepoints, prior 0 at
@@ -149,11 +178,18 @@ Example C10_nonvacuous_tree_hypotheses :
   U ex10R_lik ex10R_prior ex10R_tree 2 = 3%R.
 Proof. exact C10_real_example. Qed.
 
-(** NOT proved: (a) the posterior of the NON-ROOT internal nodes against brute force (the
-    top-down induction for the outside pass, [C10_posterior_exact] of DESIGN.md; the outside
-    pass is specified at message level in proofs/DiscreteOutside.v and checked on the worked
-    example above); (b) the logarithmic-space statement (it needs the run-level consequence
-    of the operation-level homomorphism of C12).  Both are decided on every run by the oracle
-    of tools/props/c10.py: an independent enumeration over all assignments on every tree shape
-    up to 5 leaves (polytomies included), both spaces, all nodes, and by the correspondence
-    of the model with the implementation. *)
+Example C10_nonvacuous_outside_hypotheses :
+  outside_order (map fst (groupby e_child ex10R_out)) [] (groupby e_child ex10R_out) /\
+  ~ In 4%nat (map fst (groupby e_child ex10R_out)) /\
+  out_ok (groupby e_child ex10R_out) ex10R_tree /\ NoDup (inodes ex10R_tree) /\ In 3%nat (inodes ex10R_tree).
+Proof. exact C10_real_example_out. Qed.
+
+(** NOT proved: (a) the logarithmic-space statement (it needs the run-level consequence of
+    the operation-level homomorphism of C12); (b) the variant with cached g_i
+    (cache_inside=True; the cached values are the same expression, and the correspondence runs
+    both variants); (c) the final row normalisation of core.py / NodeTimeValues (standardize,
+    to_probabilities), which the theorems replace by "divide by the row sum".  These are decided
+    on every run by the oracle of tools/props/c10.py: an independent enumeration over all
+    assignments on every tree shape up to 5 leaves (polytomies included), both spaces, all
+    nodes, through the public API, and by the correspondence of the model with the
+    implementation. *)
